@@ -61,6 +61,10 @@ type c05MemConn struct {
 	laddr, raddr *net.TCPAddr
 	closeCalls   atomic.Int32
 	cwCalls      atomic.Int32
+	// eofWithData: like crypto/tls or many proxy-protocol conns, hand out the last
+	// bytes of the stream together with io.EOF in the same Read call (legal io.Reader).
+	eofWithData bool
+	eofDataHits atomic.Int32
 }
 
 // c05MemPair returns the two ends of an in-memory connection; a is the "accepted"
@@ -108,8 +112,13 @@ func (c *c05MemConn) Read(b []byte) (int, error) {
 			if len(p.buf) == 0 {
 				p.buf = nil
 			}
+			last := c.eofWithData && p.buf == nil && p.wclosed
 			p.bcast()
 			p.mu.Unlock()
+			if last {
+				c.eofDataHits.Add(1)
+				return n, io.EOF
+			}
 			return n, nil
 		}
 		if p.wclosed {
@@ -122,7 +131,16 @@ func (c *c05MemConn) Read(b []byte) (int, error) {
 	}
 }
 
-func (c *c05MemConn) Write(b []byte) (int, error) {
+func (c *c05MemConn) Write(b []byte) (int, error) { return c.write(b, false) }
+
+// WriteFin writes b and shuts down the write side in one step, so that a reader can
+// find the final bytes and the end of stream together.
+func (c *c05MemConn) WriteFin(b []byte) (int, error) {
+	c.cwCalls.Add(1)
+	return c.write(b, true)
+}
+
+func (c *c05MemConn) write(b []byte, fin bool) (int, error) {
 	p := c.wr
 	written := 0
 	for {
@@ -140,6 +158,10 @@ func (c *c05MemConn) Write(b []byte) (int, error) {
 			return written, os.ErrDeadlineExceeded
 		}
 		if written == len(b) {
+			if fin {
+				p.wclosed = true
+				p.bcast()
+			}
 			p.mu.Unlock()
 			return written, nil
 		}
@@ -152,6 +174,12 @@ func (c *c05MemConn) Write(b []byte) (int, error) {
 		if space > 0 {
 			p.buf = append(p.buf, b[written:written+space]...)
 			written += space
+			if fin && written == len(b) {
+				p.wclosed = true
+				p.bcast()
+				p.mu.Unlock()
+				return written, nil
+			}
 			p.bcast()
 			p.mu.Unlock()
 			continue
@@ -408,6 +436,11 @@ type c05Scn struct {
 	ProbeTO      bool // by construction a probe runs into its deadline with bytes pending (finding shapes)
 	HeldPrefix   bool // by construction >=1 byte sits in a prefix buffer when the relay starts
 	TailAfterFin bool // a side keeps sending after it has seen the other side's end of stream
+	// in-memory runs: the dae-side end reading the client's / the upstream's stream hands
+	// out the final bytes together with io.EOF; the client / upstream writes its last
+	// segment and FIN in one step.
+	EOFWithData [2]bool
+	FinAtomic   [2]bool
 }
 
 func (s *c05Scn) Summary() map[string]any {
@@ -427,7 +460,7 @@ func (s *c05Scn) Summary() map[string]any {
 		"memLimit": s.MemLimit, "readChunk": s.ReadChunk, "sniffTimeout": s.SniffT.String(), "dnsTimeout": s.DnsT.String(),
 		"firstKind": s.FirstKind, "open": s.Open, "close": s.Close, "firstFlight": s.First,
 		"c2u": len(s.C2U), "u2c": len(s.U2C), "client": st(s.CSteps), "upstream": st(s.SSteps),
-		"wrapped": s.Wrapped, "probeTimeout": s.ProbeTO,
+		"wrapped": s.Wrapped, "probeTimeout": s.ProbeTO, "eofWithData": s.EOFWithData, "finAtomic": s.FinAtomic,
 	}
 }
 
@@ -528,6 +561,8 @@ func c05GenScn(t *rapid.T, o c05GenOpt, excludedCase func(id string)) *c05Scn {
 	s.RightOpaque = rapid.IntRange(0, 3).Draw(t, "rightOpaque") == 0
 	if o.Mem {
 		s.MemLimit = rapid.SampledFrom([]int{0, 0, 1, 7, 4096, 65536}).Draw(t, "memLimit")
+		s.EOFWithData = [2]bool{rapid.Bool().Draw(t, "eofWithDataL"), rapid.Bool().Draw(t, "eofWithDataR")}
+		s.FinAtomic = [2]bool{rapid.Bool().Draw(t, "finAtomicC"), rapid.Bool().Draw(t, "finAtomicS")}
 	}
 	chunks := []int{1, 3, 512, 4096, 65536, 65536}
 	s.ReadChunk = [2]int{rapid.SampledFrom(chunks).Draw(t, "crd"), rapid.SampledFrom(chunks).Draw(t, "srd")}
@@ -939,11 +974,12 @@ func c05GenScn(t *rapid.T, o c05GenOpt, excludedCase func(id string)) *c05Scn {
 // ---------------------------------------------------------------------------
 
 type c05Peer struct {
-	name  string
-	conn  net.Conn
-	send  []byte
-	steps []c05Step
-	chunk int
+	finAtomic bool
+	name      string
+	conn      net.Conn
+	send      []byte
+	steps     []c05Step
+	chunk     int
 
 	mu      sync.Mutex
 	recv    []byte
@@ -1020,7 +1056,16 @@ func (p *c05Peer) script(mem bool, stop, relayStarted <-chan struct{}, done chan
 		}
 		switch st.Op {
 		case c05OpWrite:
-			n, err := p.conn.Write(p.send[p.sent : p.sent+st.N])
+			var n int
+			var err error
+			if mc, ok := p.conn.(*c05MemConn); ok && p.finAtomic && i+1 < len(p.steps) && p.steps[i+1].Op == c05OpCloseWrite {
+				p.mu.Lock()
+				p.finAt, p.finDone = time.Now(), true
+				p.mu.Unlock()
+				n, err = mc.WriteFin(p.send[p.sent : p.sent+st.N])
+			} else {
+				n, err = p.conn.Write(p.send[p.sent : p.sent+st.N])
+			}
 			p.mu.Lock()
 			p.sent += n
 			p.lastWr = time.Now()
@@ -1061,8 +1106,14 @@ func (p *c05Peer) script(mem bool, stop, relayStarted <-chan struct{}, done chan
 			}
 		case c05OpCloseWrite:
 			p.mu.Lock()
-			p.finAt, p.finDone = time.Now(), true
+			already := p.finDone // done together with the last write
+			if !already {
+				p.finAt, p.finDone = time.Now(), true
+			}
 			p.mu.Unlock()
+			if already {
+				continue
+			}
 			if wc, ok := p.conn.(WriteCloser); ok {
 				_ = wc.CloseWrite()
 			}
@@ -1247,7 +1298,8 @@ func c05Execute(s *c05Scn, cn *c05Conns, limit time.Duration) *c05Result {
 	d := &c05Dae{relayStarted: make(chan struct{})}
 	stop := make(chan struct{})
 	cli := &c05Peer{name: "client", conn: cn.client, send: s.C2U, steps: s.CSteps, chunk: s.ReadChunk[0], wake: make(chan struct{})}
-	srv := &c05Peer{name: "upstream", conn: cn.upstream, send: s.U2C, steps: s.SSteps, chunk: s.ReadChunk[1], wake: make(chan struct{})}
+	cli.finAtomic = s.FinAtomic[0]
+	srv := &c05Peer{finAtomic: s.FinAtomic[1], name: "upstream", conn: cn.upstream, send: s.U2C, steps: s.SSteps, chunk: s.ReadChunk[1], wake: make(chan struct{})}
 	res := &c05Result{s: s, dae: d, cli: cli, srv: srv, conns: cn, t0: time.Now()}
 	var right netproxy.Conn = cn.right
 	if s.RightOpaque {
@@ -1340,6 +1392,12 @@ func c05Judge(r *c05Result, o c05GenOpt, exact bool) c05Verdict {
 	cls("first_" + s.FirstKind)
 	if s.RightOpaque {
 		cls("right_opaque")
+	}
+	if l, ok := r.conns.left.(*c05MemConn); ok && l.eofDataHits.Load() > 0 {
+		cls("eof_with_data_from_client_side")
+	}
+	if rc, ok := r.conns.right.(*c05MemConn); ok && rc.eofDataHits.Load() > 0 {
+		cls("eof_with_data_from_upstream_side")
 	}
 	if d.domain != "" {
 		cls("sniffed_domain")
